@@ -661,3 +661,18 @@ Lemma unsafe_call_refuted :
   forall tag v c k, exposed false (subst (upd_bind (upd_bind no_bind MVx (One (User tag v c))) MVN (One (TyLen k)))
                                          arr_rep_ty_arm_unsafe_call) = true.
 Proof. split; [reflexivity|intros; reflexivity]. Qed.
+
+(* ---------------------------------------------------------------- an element compiled out by cfg
+   `#[cfg(any())] e` in a list position is not there: arr! (like the native literal) denotes the list without it.
+   box_arr! deduces its length from one `box_arr_helper!(@unit $x)` per written element, and that expansion is `()`
+   whatever `$x` is -- the attribute is gone -- while the vec! literal loses the element: the lengths disagree and
+   `__from_vec_helper` runs `unwrap_unchecked` on `Err(LengthError)`. *)
+Definition w_all : world := mkWorld 4 true (fun _ => true).
+
+Theorem box_list_cfg_out_refuted :
+  run crate_decls w_all Runtime MArr (InList [CfgOut (User 0 3 false); User 1 10 false] 0)
+    = Done (VGA 1 [VE 10], [LEval 1]) /\
+  run crate_decls w_all Runtime MBoxArr (InList [User 1 10 false] 0)
+    = Done (VBox 1 [VE 10], [LEval 1]) /\
+  run crate_decls w_all Runtime MBoxArr (InList [CfgOut (User 0 3 false); User 1 10 false] 0) = UBhit.
+Proof. repeat split; vm_compute; reflexivity. Qed.
